@@ -26,18 +26,6 @@ theorem render_sp (l : List Item) : render (Item.sp :: l) = ' ' :: render l := b
 
 theorem render_tok (t : Tok) (l : List Item) : render (.tok t :: l) = tokChars t ++ render l := rfl
 
-def opOK (o : BOp) : Bool := o.isArith || o.isRel || o.boolPrio.isSome
-
-/-- expressions all of whose tokens have a concrete syntax: operators of the grammar, names that are identifiers -/
-def lexOK : Expr → Bool
-  | .var x => nameOK x
-  | .int _ | .bool _ => true
-  | .un _ a => lexOK a
-  | .bin o a b => opOK o && lexOK a && lexOK b
-  | .fn1 _ a => lexOK a
-  | .fn2 _ a b => lexOK a && lexOK b
-  | .ite c a b => lexOK c && lexOK a && lexOK b
-
 theorem tokOK_op {o : BOp} (h : opOK o = true) : tokOK o.tok = true := by
   cases o <;> simp_all [opOK, BOp.tok, tokOK, BOp.isArith, BOp.isRel, BOp.boolPrio]
 
